@@ -994,3 +994,66 @@ func callHasArg(v, a ssa.Value) bool {
 	}
 	return false
 }
+
+// RequireBetween: after a call to `first` succeeded, no path reaches a call to `before`
+// without passing a call to `then` (ordering inside a loop: work done on what `first`
+// produced must happen before the next `before`).
+func (r *Run) RequireBetween(rule, fnRef, first, then, before, name string) {
+	fn := r.fn(rule, fnRef)
+	if fn == nil {
+		return
+	}
+	ff := r.P.Facts(fn)
+	firsts, thens, befores := r.CallSites(fn, first), r.CallSites(fn, then), r.CallSites(fn, before)
+	if len(firsts) == 0 || len(thens) == 0 || len(befores) == 0 {
+		r.Fail(rule, fnRef+": "+name, r.P.Pos(fn.Pos()), fmt.Sprintf("anchor-unresolved: %d/%d/%d calls to %s/%s/%s", len(firsts), len(thens), len(befores), first, then, before))
+		return
+	}
+	isThen, isBefore := map[*ssa.BasicBlock]bool{}, map[*ssa.BasicBlock]bool{}
+	for _, c := range thens {
+		isThen[c.Block()] = true
+	}
+	for _, c := range befores {
+		isBefore[c.Block()] = true
+	}
+	for _, cs := range firsts {
+		B := cs.Block()
+		starts := []*ssa.BasicBlock{}
+		if iff := ifOf(B); iff != nil {
+			if v, ok := cs.(ssa.Value); ok {
+				okAtom := "ok(" + ff.callTerm(v) + ")"
+				for i, s := range B.Succs {
+					for _, a := range ff.condAtomsX(iff.Cond, i == 0) {
+						if a == okAtom {
+							starts = append(starts, s)
+						}
+					}
+				}
+			}
+		}
+		if len(starts) == 0 {
+			starts = append(starts, B.Succs...)
+		}
+		seen := map[*ssa.BasicBlock]bool{}
+		stack := append([]*ssa.BasicBlock{}, starts...)
+		var bad *ssa.BasicBlock
+		for len(stack) > 0 && bad == nil {
+			n := stack[len(stack)-1]
+			stack = stack[:len(stack)-1]
+			if seen[n] || isThen[n] {
+				continue
+			}
+			seen[n] = true
+			if isBefore[n] {
+				bad = n
+				break
+			}
+			stack = append(stack, n.Succs...)
+		}
+		detail := ""
+		if bad != nil {
+			detail = "a path from the successful " + first + " reaches " + before + " at " + r.P.Pos(ff.condPos(bad)) + " without " + then
+		}
+		r.Check(rule, fnRef+": "+name, r.P.Pos(cs.Pos()), bad == nil, detail)
+	}
+}
